@@ -135,7 +135,7 @@ PROPS = {
     'C11': {
         'ops': [('scan', 250, 8000, ('-mix', 'c09')), ('scan', 300, 10000, ('-mix', 'c02')), ('scan', 200, 5000, ('-mix', 'junk')), ('pppipe', 10, 120)],
         'corr': ['corr:reads', 'corr:writes', 'corr:panic', 'corr:pp:pipe'],
-        'prop': ['C11'],
+        'prop': ['C11', 'C02:separator-run-withheld'],
         'nontrivial': ['kind='],
         'input_fields': 2,
         'rule': _SCAN_RULE + '; the scripted reader records, at every Read, len(p), the count returned and the bytes already written; the model must predict that sequence exactly, and on the '
@@ -244,8 +244,8 @@ PROPS = {
         'extra_props': ['C06b'],
         'ops': [('aggregate', 1200, 40000), ('guess', 80, 3000), ('pp', 40, 2000), ('html', 100, 3000), ('names', 300, 5000), ('scan', 250, 8000, ('-mix', 'c02'))],
         'tpl_check': True,
-        'corr': ['corr:order', 'corr:sig', 'corr:ids', 'corr:guess', 'corr:pp:plain', 'corr:names', 'corr:panic', 'corr:html-page'],
-        'prop': ['C06'],
+        'corr': ['corr:order', 'corr:sig', 'corr:ids', 'corr:guess', 'corr:pp:plain', 'corr:names', 'corr:panic', 'corr:html-page', 'corr:snap', 'corr:err'],
+        'prop': ['C06', 'C09:delivery-dependent'],
         'nontrivial': ['multi', 'resolved', 'blocks=', 'attrs=', 'named', 'pf='],
         'input_fields': 2,
         'rule': 'every aggregate case is aggregated 8x in one process (Go randomises map iteration per range loop) and compared in full (bucket order, merged signatures); guess cases (nested modules, overlapping GOPATH roots) 7x; '
